@@ -108,6 +108,13 @@ func (k *c04) RunCase(c *core.Ctx, i int) {
 	if !k.judge(c, i, dir, j, -1, "valid") {
 		return
 	}
+	// the same journal spread over an include tree, loaded under a perturbed
+	// schedule: the verdict must still be the automaton's
+	if i%2 == 0 {
+		if !k.judgeTree(c, i, dir, j, r) {
+			return
+		}
+	}
 	// single-fault mutants
 	for m := 0; m < 4; m++ {
 		mj, kind := mutateLifecycle(r, j)
@@ -196,6 +203,33 @@ func (k *c04) judge(c *core.Ctx, i int, dir string, j *gen.Journal, faults int, 
 		c.Nontrivial(text)
 		if c.WantSample() && kind != "valid" {
 			c.Sample(map[string]any{"family": kind, "journal": sampleJournal(text), "reference_verdict": fmt.Sprintf("%+v", v), "exit": res.Exit, "stderr": core.Trunc(string(res.Stderr), 300)})
+		}
+	}
+	return true
+}
+
+// judgeTree runs check on an include-tree rendering of j several times.
+func (k *c04) judgeTree(c *core.Ctx, i int, dir string, j *gen.Journal, r *rand.Rand) bool {
+	v := ref.Lifecycle(j)
+	tj := j.Clone()
+	tj.Shuffle(r)
+	files := tj.SplitTree(r, 3, 5)
+	tdir := dir + "/tree"
+	core.WriteFiles(tdir, files)
+	defer os.RemoveAll(tdir)
+	for n := 0; n < 4; n++ {
+		env := []string{"GOMAXPROCS=" + []string{"2", "4", "16", "16"}[n], fmt.Sprintf("KNUT_VERIF_SCHED=%d:300:200", r.Intn(1<<30))}
+		res := knut(c, tdir, env, "check", "main.knut")
+		c.Eval(1)
+		c.Observe("family", "valid-tree")
+		if res.Class == "timeout" {
+			c.Inconclusive(i, "check of an include tree timed out")
+			continue
+		}
+		if (res.Class == "ok") != v.OK {
+			c.Violation(core.Witness{Case: i, Key: "tree-verdict-differs", Why: fmt.Sprintf("the journal is well-formed=%v by the lifecycle rules, but spread over %d included files check ends with class %s (%s): %s", v.OK, len(files), res.Class, strings.Join(env, " "), core.Trunc(string(res.Stderr), 300)),
+				Files: files, Cmd: knutCmd(c, env, "check", "main.knut")})
+			return false
 		}
 	}
 	return true
